@@ -61,6 +61,17 @@ theorem Pl_tpar : Pl e a1 a2 a3 * tpar e a1 a2 a3 t1 t2 t3 = -(tpar e a1 a2 a3 t
   simp only [h0, h1, h2]
   linear_combination (norm := module) (-2 * (t1 * a1 + t2 * a2 + t3 * a3) : ℚ) • haI
 
+theorem Pl_ep : Pl e a1 a2 a3 * e 3 = e 3 * Pl e a1 a2 a3 := by
+  simp only [Pl, vec3, I3]
+  gens_nf G
+  try module
+
+theorem ninf_ep : ninf e * e 3 + e 3 * ninf e = (2 : ℚ) • (1 : A) := by
+  simp only [ninf]
+  gens_nf G
+  simp only [h3]
+  module
+
 end
 
 end GaExp
